@@ -304,7 +304,7 @@ def r4_symbolic_deriv(rule, root=None):
             seen.add(variant)
             key = "%s|%s" % (enum, variant)
             if variant in zero:
-                if A.ftxt(A.strip(arm["body"])) == "Ok(zero)":
+                if A.ftxt(A.unblock(arm["body"])) == "Ok(zero)":
                     rule.ok("deriv(%s) = 0" % variant, file=CTX, line=arm["ln"])
                 else:
                     rule.bad(key, "d/dv of %s must be zero (no Dirac deltas)" % variant, A.where(fn, arm))
